@@ -217,3 +217,12 @@ def written_header_locates_array(vc):
 # ... and of the antenna that stacks the streams: its own clock (the one reset_start() pushes back into the streams at the start of every
 # recording) advances with its streams for 1 and 2 polarisations - C10's antenna contract, discharged again here
 contract('C07', 'antenna_clock_follows_its_streams', functions=[_C10.ANT + '.get_samples', _C10.ANT + '.reset_start'])(_C10.antenna)
+
+
+# ... and of the bytes the tone is read back from: a sample stored with its real and imaginary parts exchanged is the mirror image j*conj(z),
+# which puts the tone at centre - d instead of centre + d inside its coarse channel.  C02's layout contract for collect_data_block (every
+# stored byte is the requantised spectrum at its position; 8-bit: real then imaginary byte; 4-bit: real in the high nibble, imaginary in the
+# low nibble), discharged again here for one 8-bit and one 4-bit configuration
+from . import c02 as _C2
+contract('C07', 'stored_samples_keep_real_then_imaginary_order[2pol,8bit]', functions=[_C2.BK + '.collect_data_block'])(lambda vc: _C2.collect_data_block_case(vc, 2, 8, True, False))
+contract('C07', 'stored_samples_keep_real_high_nibble_imaginary_low_nibble[1pol,4bit]', functions=[_C2.BK + '.collect_data_block'])(lambda vc: _C2.collect_data_block_case(vc, 1, 4, True, False))
